@@ -113,6 +113,7 @@ def run(ctx) -> None:
 
     # ---- R2 ---------------------------------------------------------------------
     check_async_map_order(ctx, "C10.R2")
+    check_map_over_order_kept(ctx, "C10.R4")
     amap = [m for m in template_methods(db, "map") if m.is_async][0]
 
     # ---- R3 ---------------------------------------------------------------------
@@ -254,6 +255,56 @@ def check_first_failure(ctx, rule: str) -> None:
 
 
 
+def check_map_over_order_kept(ctx, rule: str) -> None:
+    """The order in which the caller lists the mapped parameters is the order of the product axes: every place that stores,
+    copies, renames or translates a graph node's map_over list keeps its element order (an element-wise image of the
+    source sequence — never a re-enumeration of the node's or the inner graph's inputs, a set, or a sort)."""
+    db, rep = ctx.db, ctx.rep
+    gn = db.cls("nodes.graph_node.GraphNode")
+
+    def order_kept(v: ast.AST, f) -> tuple[bool, str]:
+        if isinstance(v, ast.Constant) and v.value is None:
+            return True, "none"
+        if isinstance(v, ast.Name):
+            ds = db.local_defs(f).get(v.id, [])
+            if len(ds) == 1 and getattr(ds[0], "value", None) is not None:
+                return order_kept(ds[0].value, f)
+            return (v.id in f.param_names or v.id == (f.args.vararg.arg if f.args.vararg else None)), f"'{v.id}'"
+        if isinstance(v, ast.Attribute) and v.attr == "_map_over":
+            return True, "the stored list"
+        if isinstance(v, ast.Starred):
+            return order_kept(v.value, f)
+        if isinstance(v, ast.List) and len(v.elts) == 1 and isinstance(v.elts[0], ast.Starred):
+            return order_kept(v.elts[0].value, f)
+        if isinstance(v, ast.Call) and (dotted(v.func) or "") in ("list", "tuple") and len(v.args) == 1:
+            a = v.args[0]
+            if isinstance(a, ast.Call) and (dotted(a.func) or "") == "dict.fromkeys" and len(a.args) == 1:
+                a = a.args[0]
+            return order_kept(a, f)
+        if isinstance(v, ast.ListComp) and len(v.generators) == 1 and not v.generators[0].ifs:
+            return order_kept(v.generators[0].iter, f)
+        if isinstance(v, ast.ListComp) and len(v.generators) == 1:
+            ok_, why_ = order_kept(v.generators[0].iter, f)
+            return ok_, why_
+        if isinstance(v, ast.IfExp):
+            a, b = order_kept(v.body, f), order_kept(v.orelse, f)
+            return (a[0] and b[0]), (a[1] if not a[0] else b[1])
+        return False, f"'{src(v)[:60]}'"
+
+    n = 0
+    for m in gn.methods.values():
+        sites = [(x, x.value) for x in walk_local(m.node) if isinstance(x, ast.Assign) and any(isinstance(t, ast.Attribute) and t.attr == "_map_over" for t in x.targets)]
+        if m.name == "_original_map_params":
+            sites += [(r, r.value) for r in walk_local(m.node) if isinstance(r, ast.Return) and r.value is not None]
+        for k, (st, v) in enumerate(sites):
+            n += 1
+            ok, what = order_kept(v, m)
+            # an iteration source that is a parameter/the stored list is fine; anything else re-enumerates
+            rep.add(rule, f"{m.qname}:map-over-order#{k}", ok, f"{m.module.rel}:{st.lineno}", "the list is an element-wise image of the caller's list (order kept)" if ok else f"the mapped-parameter list is rebuilt from {what} instead of element by element from the caller's list: the order the caller gave to map_over() is lost, so in product mode the axes (slow/fast parameter) swap and entry i no longer belongs to combination i — e.g. map_over('b', 'a', mode='product') on inner inputs (a, b)")
+    if n < 5:
+        raise AnalysisError(f"only {n} map_over list sites found in GraphNode")
+
+
 def check_async_map_order(ctx, rule: str) -> None:
     """Bounded and unbounded async map both return their results in input order."""
     db, rep = ctx.db, ctx.rep
@@ -358,6 +409,9 @@ HP = "src/hypergraph/runners/_shared/helpers.py"
 TA = "src/hypergraph/runners/_shared/template_async.py"
 TS = "src/hypergraph/runners/_shared/template_sync.py"
 VARIANTS = [
+    Variant("map-over-list-sorted", "src/hypergraph/nodes/graph_node.py", replace_once("        new._map_over = list(params)", "        new._map_over = sorted(set(params))"), {"C10.R4"}),
+    Variant("twin-map-over-list-unpacked", "src/hypergraph/nodes/graph_node.py", replace_once("        new._map_over = list(params)", "        new._map_over = [*params]"), set()),
+    Variant("twin-map-over-list-deduplicated-in-order", "src/hypergraph/nodes/graph_node.py", replace_once("        new._map_over = list(params)", "        new._map_over = list(dict.fromkeys(params))"), set()),
     Variant("map-drops-entrypoint", "src/hypergraph/runners/_shared/template_sync.py", sub_first(r"(                    on_internal_override=on_internal_override,\n)                    entrypoint=entrypoint,\n", r"\1"), {"C10.R7"}),
     Variant("clone-once-for-all-items", "src/hypergraph/runners/_shared/helpers.py", sub_first(r"(\n    for [^\n]*:\n(?:        [^\n]*\n)*?        yield \{\n(?:            [^\n]*\n)*?)            \*\*_maybe_clone_broadcast\(broadcast_values, clone\),", r"\1            **broadcast_values,"), {"C10.R6"}),
     Variant("failed-item-partial-values", "src/hypergraph/runners/_shared/helpers.py", replace_once("            # Continue mode: use None placeholders to preserve list length\n            for name in node.outputs:\n                collected[name].append(None)\n            continue\n", ""), {"C10.R1"}),
